@@ -237,7 +237,9 @@ FUNCS = ["APE.process_data", "RPE.process_data", "statistics/get_result", "align
 
 # ------------------------------------------------------------------ (b) independence
 DERIVE = ["deepcopy", "associate_first", "associate_second", "split_time", "split_distance",
-          "split_speed", "split_nogap", "merge", "dataframe", "result_merge"]
+          "split_speed", "split_nogap", "merge", "dataframe", "result_merge",
+          # objects that merely *interacted* with A (A was the reference / the other argument)
+          "origin_aligned_to", "umeyama_aligned_to", "ape_partner", "rpe_partner", "plot_partner"]
 MUTATE = ["transform", "transform_right", "propagate", "scale", "project", "reduce", "downsample",
           "motion_filter", "crop", "align", "align_origin", "stamps+=", "sim3"]
 
@@ -273,6 +275,29 @@ def derive(rng, A, arrA, how):
         return [trajectory.merge([A, other])]
     if how == "dataframe":
         return [pandas_bridge.df_to_trajectory(pandas_bridge.trajectory_to_df(A))]
+    if how in ("origin_aligned_to", "umeyama_aligned_to", "ape_partner", "rpe_partner", "plot_partner"):
+        from evo.core import metrics
+        other, _, _ = fresh(rng, n=len(arrA["p"]))
+        if how == "origin_aligned_to":
+            other.align_origin(A)
+        elif how == "umeyama_aligned_to":
+            other.align(A, correct_scale=bool(rng.random() < .5))
+        elif how == "ape_partner":
+            metrics.APE(metrics.PoseRelation.full_transformation).process_data((A, other))
+        elif how == "rpe_partner":
+            metrics.RPE(metrics.PoseRelation.full_transformation).process_data((A, other))
+        else:
+            import matplotlib
+            matplotlib.use("Agg")
+            import matplotlib.pyplot as plt
+            from evo.tools import plot
+            fig = plt.figure()
+            ax = plot.prepare_axis(fig, plot.PlotMode.xy)
+            plot.traj(ax, plot.PlotMode.xy, A)
+            plot.draw_correspondence_edges(ax, other, A, plot.PlotMode.xy)
+            plot.draw_coordinate_axes(ax, A, plot.PlotMode.xy, 0.1)
+            plt.close(fig)
+        return [other]
     if how == "result_merge":
         from vmon.props import C13
         rs = [C13.make_result(rng, ["rmse"], ["error_array"], {"error_array": 3}, i, "e%d" % i) for i in range(2)]
